@@ -31,7 +31,8 @@ def run(ctx, replay=None):
     else:
         heavy = {"TokenCooccurrenceVectorizer", "TimedTokenCooccurrenceVectorizer", "MultiSetCooccurrenceVectorizer",
                  "NgramCooccurrenceVectorizer", "DistributionVectorizer"}
-        groups = [[(n, ctx.rng.randrange(10 ** 6)) for n in g for _ in range(per if n in heavy else 3 * per)] for g in GROUPS]
+        groups = [[(n, base + i) for n in g for base in [1000 * ctx.rng.randrange(1000)]
+                   for i in range(per if n in heavy else 3 * per)] for g in GROUPS]
     with ThreadPoolExecutor(max_workers=10) as ex:
         futs = [ex.submit(C.run_impl, "c02", [list(c) for c in g], None, 2400) for g in groups]
         results = [f.result() for f in futs]
